@@ -2,7 +2,7 @@
    the model in Model.v / Skeleton.v; Gen/C12.v is regenerated from /repo on every run. *)
 From Coq Require Import Relations.
 From Sdns Require Import Common.Base Gen.C12 C12.Model C12.Skeleton
-  C12.Proofs_ledger C12.Proofs_sig C12.Proofs_guard C12.Proofs_run C12.Proofs_skeleton C12.Proofs_reply C12.Proofs_query C12.Proofs_trace C12.Proofs_walk C12.ModelDS C12.Proofs_ds C12.Run.
+  C12.Proofs_ledger C12.Proofs_sig C12.Proofs_guard C12.Proofs_run C12.Proofs_skeleton C12.Proofs_reply C12.Proofs_query C12.Proofs_trace C12.Proofs_walk C12.ModelDS C12.Proofs_ds C12.ModelN3 C12.Proofs_n3 C12.Proofs_n3memo C12.Run.
 Open Scope N_scope.
 
 (* ---- translator ties: the kind sets the two dimension switches range over, the DNSSEC/network
@@ -433,6 +433,74 @@ Example ds_padded_set :
    v = DOk /\ m = [0%nat; 1%nat] /\ l_ds l = 14 /\ l_exh l = 0) /\
   ds_need dsl [0%nat; 1%nat] = 14.
 Proof. exact ds_padded_set_example. Qed.
+
+(* ---- the NSEC3 denial verifiers (session 5): VerifyNameError / VerifyNODATA / VerifyDelegation / VerifyWildcardAnswer
+   ...ForZoneWithWork on the tree's ledger and the tree's hash memo, as Resolver.answer / authority / validateDelegation call them.
+   nsec3_hash_work_bounded: enforce mode, a fresh request tree, ANY sequence of validations of ANY shape (names of any
+   depth, rings with gaps, overlaps, Opt-Out, any type bitmaps), with or without a memo: the iterated hashes computed
+   stay within MaxNSEC3Hashes, and within what the shapes admit — per validation one per suffix of the name inside the
+   signer zone, from the name itself up to and including the first suffix a record matches (the closest encloser; all
+   of them when there is none) and, only when there is one, one more for the wildcard below it ([walk_cost]): names
+   above the signer zone, the next closer name, a second look at the name cost nothing.
+   Run.check_case compares [n3_run] with the real functions (CaseN3: every verdict, counter, exhaustion bit, latch). *)
+Theorem nsec3_hash_work_bounded : forall H um ps,
+  let '(l, _, _) := n3_run um (new_ledger (n3_policy mode_enforce H)) [] ps in
+  l_n3 l <= H /\ l_n3 l <= n3_shape_bound ps.
+Proof. exact nsec3_hash_work_bounded_lemma. Qed.
+Print Assumptions nsec3_hash_work_bounded.
+
+(* "high NSEC3 iteration proofs": records above maxNSEC3Iterations (150), with another hash algorithm or with undefined
+   flags are dropped before any hash work, in every mode — the validation fails, ledger and memo are untouched.  The
+   usability test is the srcgen translation of dnssec.nsec3Safe (second theorem: what it says), so one hash is at most
+   151 SHA-1 rounds and one request tree at most MaxNSEC3Hashes x 151. *)
+Theorem nsec3_unusable_records_cost_nothing : forall um l memo kind isds halg flags iters mixed chain,
+  (max_nsec3_iterations < iters \/ halg <> 1 \/ 1 < flags) ->
+  n3_validate um l memo (kind, isds, (halg, flags, iters), mixed, chain) = (l, memo, NFail).
+Proof. exact unusable_records_cost_nothing. Qed.
+Print Assumptions nsec3_unusable_records_cost_nothing.
+
+Theorem nsec3_safe_is_the_translated_function : forall halg flags iters,
+  go_nsec3Safe (n3_record (halg, flags, iters)) =
+  (halg =? 1) && (iters <=? max_nsec3_iterations) && ((flags =? 0) || (flags =? 1)).
+Proof. exact gen_nsec3_safe. Qed.
+Print Assumptions nsec3_safe_is_the_translated_function.
+
+Theorem nsec3_shadow_never_refuses : forall H um ps,
+  let '(_, _, vs) := n3_run um (new_ledger (n3_policy mode_shadow H)) [] ps in Forall (fun v => forall e, v <> NWork e) vs.
+Proof. exact nsec3_shadow_never_refuses_lemma. Qed.
+Print Assumptions nsec3_shadow_never_refuses.
+
+(* the request tree's hash memo (dnssec.EnsureNSEC3HashMemo): with a memo on the context every distinct hash preimage —
+   (parameters, zone, class, canonical name) — is paid for at most once per request tree, however many validations of the
+   tree ask about it and in whatever order, as long as the tree meets no more distinct preimages than the memo holds
+   (maxNSEC3HashMemoEntries = 64): the memo never holds a preimage twice, holds only preimages some validation can ask
+   about ([n3_ids]: per validation the suffixes inside the zone up to and including the closest encloser and the wildcard
+   below it — nothing beyond), and the NSEC3-hash counter IS its length.  Run.spec_case requires hashes <= distinct
+   preimages of every tree that carries a memo. *)
+Theorem nsec3_memo_pays_once : forall H ps, (distinct (n3_ids ps) <= memo_cap)%nat ->
+  let '(l, memo, _) := n3_run true (new_ledger (n3_policy mode_enforce H)) [] ps in
+  NoDup memo /\ incl memo (n3_ids ps) /\ l_n3 l = N.of_nat (length memo) /\ l_n3 l <= N.of_nat (distinct (n3_ids ps)).
+Proof. exact nsec3_memo_pays_once_lemma. Qed.
+Print Assumptions nsec3_memo_pays_once.
+
+(* non-vacuity: a.b.c.z under zone z, closest encloser z (NXDOMAIN: 4 suffixes inside the zone + the wildcard = 5 hashes);
+   on a budget of 3 the walk is refused at the fourth name and the budget is marked exhausted; on a budget of 8 it
+   validates at a cost of 5, and a second time in the same tree it costs nothing (the tree's memo) — without a memo it
+   costs 3 more and is refused; with 151 iterations nothing is hashed at all *)
+Example nsec3_example :
+  let nm := fun i look => mk_n3 i true look false 0 in
+  let chain := [(nm 0%nat 2, nm 10%nat 0); (nm 1%nat 2, nm 11%nat 0); (nm 2%nat 2, nm 12%nat 0);
+                (mk_n3 3 true 1 false 6, nm 13%nat 2); (mk_n3 4 false 0 false 0, mk_n3 14 false 0 false 0)] in
+  let p := (0, false, (1, 0, 5), false, chain) : n3proof in
+  (let '(l, _, vs) := n3_run true (new_ledger (n3_policy mode_enforce 3)) [] [p] in
+   l_n3 l = 3 /\ vs = [NWork (RLimit kind_nsec3_hash 3)] /\ N.land (l_exh l) bit_nsec3_hash = bit_nsec3_hash) /\
+  (let '(l, _, vs) := n3_run true (new_ledger (n3_policy mode_enforce 8)) [] [p; p] in l_n3 l = 5 /\ vs = [NOk; NOk]) /\
+  (let '(l, _, vs) := n3_run false (new_ledger (n3_policy mode_enforce 8)) [] [p; p] in
+   l_n3 l = 8 /\ vs = [NOk; NWork (RLimit kind_nsec3_hash 8)]) /\
+  (let '(l, _, vs) := n3_run true (new_ledger (n3_policy mode_enforce 8)) [] [(0, false, (1, 0, 151), false, chain)] in
+   l_n3 l = 0 /\ vs = [NFail]) /\
+  n3_shape_bound [p] = 5 /\ distinct (n3_ids [p; p]) = 5%nat /\ memo_cap = 64%nat.
+Proof. exact n3_example. Qed.
 
 (* ---- non-vacuity *)
 (* three threads, two debits each, cap 4: a schedule that interleaves loads and CASes; 4 accepted, 2 refused *)
